@@ -673,6 +673,74 @@ def check_pipeline(task):
     return {"transitions": n, "histories": n, "viols": viols}
 
 
+# ------------------------------------------------------------------ Collection.set_children_styles
+def check_children(task):
+    """set_children_styles assigns a value to the matching leaf of every (nested) child - and to nothing else: other leaves,
+    children without that leaf, the collection itself, bystanders, the defaults and the caller's dict stay as they were"""
+    _, fam, tier = task
+    if not hard_reset():
+        return {"harness": "cannot restore defaults baseline"}
+    mp = _mp()
+    viols, n = [], 0
+    for leaf in leaves_of(fam):
+        vals, _ = probe_values(lambda: FAMILIES[fam]().style, leaf, want=1)
+        if not vals:
+            continue
+        c, b = vals[0]
+        us = leaf.replace(".", "_")
+        for via in ("kw", "dict_us", "dict_nested", "dict+kw", "nonrecursive"):
+            n += 1
+            kids = {f: FAMILIES[f]() for f in ("magnet", "current", "sensor", "dipole", "triangle")}
+            inner = mp.Collection(kids["dipole"], kids["triangle"])
+            coll = mp.Collection(kids["magnet"], kids["current"], kids["sensor"], inner)
+            bystander = FAMILIES[fam]()
+            before = {f: lin(k.style.as_dict()) for f, k in kids.items()}
+            cs0, is0, by0 = norm(coll.style.as_dict()), norm(inner.style.as_dict()), norm(bystander.style.as_dict())
+            d0 = norm(lin(DS().as_dict()))
+            arg = None
+            try:
+                if via == "kw":
+                    coll.set_children_styles(**{us: copy.deepcopy(c)})
+                elif via == "dict_us":
+                    arg = {us: copy.deepcopy(c)}
+                    coll.set_children_styles(arg)
+                elif via == "dict_nested":
+                    arg = nested(leaf, copy.deepcopy(c))
+                    coll.set_children_styles(arg)
+                elif via == "dict+kw":
+                    arg = {"opacity": 0.25}
+                    coll.set_children_styles(arg, **{us: copy.deepcopy(c)})
+                else:
+                    coll.set_children_styles(recursive=False, **{us: copy.deepcopy(c)})
+            except Exception as e:
+                if via == "dict_nested":
+                    continue      # whether the nested form is accepted here is not documented
+                viols.append((f"set_children_styles-raises-{type(e).__name__}:{via}", [fam, leaf, via], str(e)[:100]))
+                continue
+            reached = ("magnet", "current", "sensor") if via == "nonrecursive" else tuple(kids)
+            for f, k in kids.items():
+                now = lin(k.style.as_dict())
+                for key, old in before[f].items():
+                    want = old
+                    if f in reached and key == leaf:
+                        want = b
+                    if f in reached and via == "dict+kw" and key == "opacity" and leaf != "opacity":
+                        want = 0.25
+                    if norm(now.get(key)) != norm(want):
+                        viols.append((f"children-style-wrong:{via}", [fam, leaf, via], f"child {f} leaf {key}: {now.get(key)!r}, expected {want!r}"))
+                        break
+            if norm(coll.style.as_dict()) != cs0:   # (the inner collection is itself a child and takes matching leaves)
+                viols.append((f"children-style-changed-the-collection:{via}", [fam, leaf, via], ""))
+            if norm(bystander.style.as_dict()) != by0 or norm(lin(DS().as_dict())) != d0:
+                viols.append((f"children-style-leaks:{via}", [fam, leaf, via], "bystander object or defaults changed"))
+            if via == "dict+kw" and arg != {"opacity": 0.25}:
+                viols.append((f"children-style-changed-caller-dict:{via}", [fam, leaf, via], f"caller dict is now {arg!r}"))
+            if via == "dict_us" and list(arg) != [us]:
+                viols.append((f"children-style-changed-caller-dict:{via}", [fam, leaf, via], f"caller dict is now {arg!r}"))
+    hard_reset()
+    return {"transitions": n, "histories": n, "viols": viols}
+
+
 def leaves_of(fam):
     o = FAMILIES[fam]()
     out = []
@@ -693,6 +761,8 @@ def work(task):
             return check_pairs(task)
         if task[0] == "pipeline":
             return check_pipeline(task)
+        if task[0] == "children":
+            return check_children(task)
         return check_leaf(task)
     except Exception as e:
         import traceback
@@ -710,6 +780,7 @@ def run(tier, seed):
         for leaf in leaves_of(fam):
             tasks.append((fam, leaf, tier))
     dtasks = [("default", k) for k in BASE()] + [("stylecopy", fam) for fam in FAMILIES]
+    dtasks += [("children", fam, tier) for fam in ("magnet", "current", "sensor", "dipole", "triangle")]
     dtasks += [("pipeline", fam, tier) for fam in ("magnet", "current", "sensor", "dipole", "triangle", "triangularmesh", "base")]
     dtasks += [("pairs", fam, leaf, tier) for fam in FAMILIES for leaf in leaves_of(fam)
                if not (tier == "quick" and fam in ("triangularmesh", "triangle"))]
@@ -730,7 +801,7 @@ def run(tier, seed):
             samples.append({"family": t[0], "leaf": t[1], "values": r["values"], "invalid": r["bad"]})
         for kind, steps, detail in r["viols"]:
             tname = f"{t[0]}.{t[1]}" if t[0] != "pairs" else f"{t[1]}.{t[2]}"
-            if t[0] == "pipeline":
+            if t[0] in ("pipeline", "children"):
                 tname = f"{t[1]}.{steps[1]}"
             viols.append({"key": f"C20|{tname}|{kind}",
                           "what": f"{tname}: {kind} history={steps} {detail}",
